@@ -171,6 +171,30 @@ pub fn gen(tier: &str, seed: u64, out: &mut dyn FnMut(Value)) {
             out(json!({"op": "scenario", "rules": [r.to_json(&mut rng)], "events": evj2, "tag": "prefix selection, wide names", "nt": true}));
         }
     }
+    // operand names are any text after `$` (only the condition's own tokens are restricted): names continuing a
+    // prefix with `-`, `.`, a space, characters above `z` and outside ASCII are distinct operands, all selected by
+    // the prefix and each counted once
+    let names3: [(&str, &str); 8] = [("$ip", "f0"), ("$ip-src", "f1"), ("$ip-dst", "f2"), ("$ip\u{e9}", "f3"), ("$ip{", "f4"), ("$ip~x", "f5"), ("$ip z", "f6"), ("$ip.y", "f7")];
+    let ops3: Vec<(String, Operand)> = names3.iter().map(|(n, f)| (n.to_string(), Operand::Test { segs: vec![f.to_string()], op: 0, lit: Lit::sq("1") })).collect();
+    let events3: Vec<DynEvent> = (0..(1u32 << 8))
+        .map(|m| DynEvent {
+            source: "s".into(),
+            id: 1,
+            fields: (0..8).map(|i| (vec![names3[i].1.to_string()], gene::FieldValue::String(if m & (1 << i) != 0 { "1".into() } else { "0".into() }))).collect(),
+        })
+        .collect();
+    let evj3: Vec<Value> = events3.iter().map(event_to_json).collect();
+    for g in [None, Some("$ip"), Some("$i"), Some("$ip_"), Some("$ipz"), Some("$ipp")] {
+        let g = g.map(|x| x.to_string());
+        let mut fs = vec![Form::All(g.clone()), Form::Any(g.clone()), Form::NoneOf(g.clone()), Form::V("$ip".into())];
+        for n in [0u64, 1, 2, 3, 7, 8, 9] {
+            fs.push(Form::N(n, g.clone()));
+        }
+        for f in with_neg(fs) {
+            let r = SRule { name: "r".into(), ops: ops3.clone(), cond: Some(f.clone()), ..Default::default() };
+            out(json!({"op": "scenario", "rules": [r.to_json(&mut rng)], "events": evj3, "tag": "prefix selection, names beyond identifiers", "nt": true}));
+        }
+    }
     // all formulas over variables with up to 3 leaves (each rendered with seeded spellings/parentheses)
     let vl = var_leaves();
     let max = if tier == "thorough" { 3 } else { 3 };
